@@ -338,7 +338,7 @@ def resolve(ops):
     return out
 
 
-RICH_ANN = ["a", "b", "c"]
+RICH_ANN = ["a10", "a2", "B"]      # alphabetical order differs from numeric and from case-insensitive order
 RICH_SEGS = [(0.0, 1.0), (0.0, 2.0), (1.0, 2.0), (-3.0, -1.0), (0.5, 7.25), (2.0, 2.0), (3.0, 3.0000005), (5.0, 4.0)]
 RICH_LABELS = [None, "x", "y"]
 
